@@ -33,6 +33,9 @@ def features(cfg):
             bufs = [j for j, k in enumerate(ks) if k in ("buffer", "integ")]
             if bufs and any(k in ("fixed", "topull", "topush") for k in ks[bufs[0] + 1:]):
                 f.add("delay_above_buffer")
+            # a push-based consumer pulls on notification, like a buffering adapter does
+            if c["kind"] == "sink" and any(k in ("fixed", "topull", "topush") for k in ks):
+                f.add("delay_above_buffer")
             if ks:
                 f.add("adapters")
     for src, rs in readers.items():
